@@ -66,6 +66,7 @@ VALUE_AXIOMS = [
     ForAll([_x, _y, _z], Implies(And(py_eq(_x, _y), nlt(_y, _z)), nlt(_x, _z))),
     ForAll([_x, _y], Implies(And(same(_x, _y), ORDERED(_x)), Or(nlt(_x, _y), py_eq(_x, _y), nlt(_y, _x)))),
     ForAll([_x], Implies(cls(_x) == NONE, Not(truthy(_x)))),
+    ForAll([_x], Implies(Or(is_int(_x), is_bool(_x)), And(cls(_x) == NUM, num(_x) == z3.ToReal(ival(_x))))),
 ]
 VALUE_AXIOM_TEXT = [
     "T4: == is an equivalence; False across value classes; numeric equality inside NUM (bool/int/float/Decimal); None == None",
